@@ -20,8 +20,9 @@ REFUTED = [
 ]
 PARTIAL = [
     "C17_parts_from_cells_partial (chain-ordered, vertex-disjoint open polylines, vertices that belong to a segment)",
-    "rotation / dip are function parameters of the theorems: index layout and centre formulas are proved, the float "
-    "trigonometry is not (correspondence uses multiples of 90 degrees compared after rounding to 2^-20)",
+    "rotation / dip: the code's matrices are proved to be rigid motions about the origin for any (cos, sin) with c^2+s^2=1 "
+    "(C17_*_rotated_about_origin); that numpy's cos/sin are such a pair is not proved (correspondence on multiples of 90 degrees "
+    "compared after rounding to 2^-20; arbitrary angles by the oracle to 1e-9)",
 ]
 TRUSTED = [
     "Coq 8.16.1 kernel + vm_compute (correspondence evaluation); no axioms (Print Assumptions: closed)",
@@ -289,6 +290,27 @@ def generate(rng, tier):
     # the probe of the design phase
     cases.append({"kind": "bm", "origin": [0, 0, 0], "rotation": None, "du": [-10, -5, 0], "dv": [0, 1], "dz": [0, 1, 3, 4], "ops": [["read"]]})
     cases.append({"kind": "bm", "origin": None, "rotation": None, "du": [0, 1, 2], "dv": [0, 1], "dz": [0, 1, 3, 4], "ops": [["read"]]})
+    # ---- arbitrary rotation / dip angles (oracle only, 1e-9): rotated about the origin, counter-clockwise, dip before rotation
+    odd = [30, 45, -37.5, 200.25, 123, 60, 10]
+    for _ in range(200 if thorough else 14):
+        c = gen_bm(rng, (rng.range(1, 3), rng.range(1, 3), rng.range(1, 3)), with_ops=True)
+        c["rotation"] = rng.choice(odd)
+        c["origin"] = gen_origin(rng, 10)
+        c["ops"] = [["rotation", rng.choice(odd)] if op[0] == "rotation" and rng.chance(70) else op for op in c["ops"]]
+        cases.append(c)
+    for _ in range(200 if thorough else 14):
+        c = gen_g2(rng, (rng.range(1, 3), rng.range(1, 3)))
+        c["rotation"] = rng.choice(odd)
+        c["origin"] = gen_origin(rng, 10)
+        if c.get("vertical") is None:
+            c["dip"] = rng.choice([30, 45, -20, 60, 0, 90])
+        c["ops"] = [[op[0], rng.choice(odd)] if op[0] in ("rotation", "dip") and rng.chance(70) else op for op in c["ops"]]
+        cases.append(c)
+    for _ in range(120 if thorough else 8):
+        c = gen_oct(rng, (rng.range(0, 2), rng.range(0, 2), rng.range(0, 2)), custom=rng.chance(40))
+        c["rotation"] = rng.choice(odd)
+        c["origin"] = gen_origin(rng, 10)
+        cases.append(c)
     # ---- 2-D grids
     for shape in itertools.product(range(1, 5), repeat=2):
         cases.append(gen_g2(rng, shape))
@@ -338,7 +360,8 @@ def _read(obj, kind):
 
     c = obj.centroids
     n = obj.n_cells
-    res = {"centroids": _obs_arr(np.asarray(c, dtype=float).tolist()), "n_cells": None if n is None else int(n)}
+    res = {"centroids": _obs_arr(np.asarray(c, dtype=float).tolist()), "raw": np.asarray(c, dtype=float).tolist(),
+           "n_cells": None if n is None else int(n)}
     at = {"origin": _org(obj.origin), "rotation": float(obj.rotation)}
     if kind == "bm":
         at.update(du=obj.u_cell_delimiters.tolist(), dv=obj.v_cell_delimiters.tolist(), dz=obj.z_cell_delimiters.tolist())
@@ -497,6 +520,8 @@ def _n_reads(case):
 def case_term(case, obs):
     kind = case["kind"]
     if kind in ("bm", "g2", "oct"):
+        if not _exact_angles(case):
+            return None  # arbitrary angle: float trigonometry, judged by the oracle to 1e-9
         if "error" in obs or len(obs.get("reads", [])) != _n_reads(case):
             return "false"  # the model of the (repaired) code never refuses these histories
         if not all(_exact(r["centroids"]) for r in obs["reads"]):
@@ -583,8 +608,22 @@ def model_term(case):
 
 # ----------------------------------------------------------------------------- oracle (property text / format documentation)
 def _cs(angle):
+    """(cos, sin) of an angle in degrees: exact for multiples of 90, floats otherwise."""
     q = (Fraction(angle) / 90) % 4
-    return {0: (1, 0), 1: (0, 1), 2: (-1, 0), 3: (0, -1)}[int(q)]
+    if q.denominator == 1:
+        return {0: (1, 0), 1: (0, 1), 2: (-1, 0), 3: (0, -1)}[int(q)]
+    import math
+
+    return (math.cos(math.radians(float(angle))), math.sin(math.radians(float(angle))))
+
+
+def _quarter(angle) -> bool:
+    return angle is None or (Fraction(angle) / 90).denominator == 1
+
+
+def _exact_angles(case) -> bool:
+    vals = [case.get("rotation"), case.get("dip")] + [op[1] for op in case.get("ops", []) if op[0] in ("rotation", "dip")]
+    return all(_quarter(v) for v in vals)
 
 
 def _rotz(angle, p):
@@ -642,11 +681,15 @@ def _oracle_grid(case, obs):
             break
         rd = obs["reads"][ri]
         ri += 1
-        if not _exact(rd["centroids"]):
+        st = rd["attrs"]
+        approx = not (_quarter(st["rotation"]) and (kind != "g2" or st["vertical"] or _quarter(st["dip"])))
+        if approx:
+            got = [tuple(r) for r in rd["raw"]]  # arbitrary angle: floats, compared to 1e-9
+        elif not _exact(rd["centroids"]):
             fails.append({"key": f"{kind}-inexact-centroid", "what": "a centroid is not a dyadic rational within 1e-9 on exact inputs"})
             continue
-        got = _as_fr(rd["centroids"])
-        st = rd["attrs"]
+        else:
+            got = _as_fr(rd["centroids"])
         org = tuple(Fraction(x) for x in st["origin"])
         rot = Fraction(st["rotation"])
         alt = None
@@ -682,17 +725,23 @@ def _oracle_grid(case, obs):
             ncell = len(st["cells"])
         if rd["n_cells"] != ncell or len(got) != ncell:
             fails.append({"key": f"{kind}-count", "what": f"read {ri - 1}: {len(got)} centroids, n_cells={rd['n_cells']}, expected {ncell}"})
-        elif got != exp:
-            if alt is not None and got == alt:
+        elif _differ(got, exp, approx):
+            if alt is not None and not _differ(got, alt, approx):
                 key = "bm-first-delimiter-ignored"
-            elif prev_expected is not None and got == prev_expected:
+            elif prev_expected is not None and len(prev_expected) == len(got) and not _differ(got, prev_expected, approx):
                 key = f"{kind}-stale-centroid-cache"
             else:
                 key = f"{kind}-centroid-position"
-            bad = next(i for i in range(ncell) if got[i] != exp[i])
+            bad = next(i for i in range(ncell) if _differ([got[i]], [exp[i]], approx))
             fails.append({"key": key, "what": f"read {ri - 1}: centroid {bad} is {tuple(map(str, got[bad]))}, format says {tuple(map(str, exp[bad]))}"})
         prev_expected = exp
     return fails
+
+
+def _differ(got, exp, approx) -> bool:
+    if not approx:
+        return got != exp
+    return any(abs(float(g) - float(e)) > 1e-9 * max(1.0, abs(float(e))) for a, b in zip(got, exp) for g, e in zip(a, b))
 
 
 def _components(nv, cells):
